@@ -268,6 +268,12 @@ def run_C02(ctx, E):
     stage_record_trace(ctx, E, "random", "C02_Trace", "C02_Trace.cfg", heap="8g")
 
 
+def run_C14(ctx, E):
+    ctx.exhaustive = True
+    stage_mc_replay(ctx, E, "layouts", "C14_MC", "C14_MC_%s.cfg" % ctx.tier)
+    stage_record_trace(ctx, E, "roundtrip", "C14_Trace", "C14_Trace.cfg", heap="16g")
+
+
 def run_C10(ctx, E):
     ctx.exhaustive = True
     for e in (("e1", "e2", "e4") if ctx.tier == "quick" else ("e1", "e2", "e3", "e4")):
@@ -285,6 +291,19 @@ _seqhash_note = ("trusted: TLC, community modules; the digest is uninterpreted i
                  "in the replayer by a from-scratch BLAKE3 transcription pinned by the official test vectors; "
                  "double-stranded inputs containing Z or (under type DNA) U are outside the strand clause and not replayed")
 PROPS = {
+    "C14": dict(run=run_C14,
+                technique="TLC evaluation of an independent GFF3+FASTA writer and reader (GffFormat.tla) with the theorem "
+                          "Read(Lines(x)) = x; every laid-out file replayed on gff.Parse; recorded gff.Build outputs read "
+                          "by the specification's reader and round trips judged by C14_Trace",
+                level_text="files laid out by the specification's writer for sequence lengths {1,2,3,69..72,139..141} "
+                           "(quick) / every length 1..141 (thorough), wrap widths 60/70/80 (1..200), features at the "
+                           "extreme coordinates: gff.Parse must return region, sequence, every feature field, 0-based "
+                           "half-open coordinates and GetSequence = bases start..end; recorded gff.Build / Write outputs "
+                           "for random records (lengths 1..5000 incl. 1 mod 70, 0..30 features, 1..6 attributes) are read "
+                           "by the specification's independent reader, and gff.Parse of them must equal the record",
+                level_note="trusted: TLC, community modules, the projection of poly.Sequence to the abstract record",
+                rule="S->I: one case per (length, width, feature shape), with and without final newline; I->S: one event "
+                     "per generated record"),
     "C02": dict(run=run_C02,
                 technique="TLC exhaustive enumeration of location expressions with the INSDC denotation, printer and a "
                           "recursive-descent recogniser (Location.tla); every expression replayed through the location "
